@@ -725,6 +725,10 @@ class Frame:
         if c is not None:
             if 'fn' in c:
                 return TOP
+            if 'v' not in c and c.get('promoted') is not None and c.get('def'):
+                v = self.interp.eval_promoted(c)
+                if v is not None:
+                    return v
             return const_to_abs(c)
         return TOP
 
@@ -1238,12 +1242,51 @@ class Interp:
                 fr.storev(dst, Int({'Less': 255, 'Equal': 0, 'Greater': 1}[v.kind[1]], 8))
             elif isinstance(v, Agg) and v.kind and isinstance(v.kind[0], str) and (v.kind[0].endswith('result::Result') or v.kind[0].endswith('ops::ControlFlow')) and v.kind[1] in ('Ok', 'Err', 'Continue', 'Break'):
                 fr.storev(dst, Int({'Ok': 0, 'Err': 1, 'Continue': 0, 'Break': 1}[v.kind[1]]))
+            elif isinstance(v, Agg) and v.kind and isinstance(v.kind[0], str) and v.kind[0] in self.facts.adts and self.facts.adts[v.kind[0]].get('kind') == 'Enum':
+                # a local enum with default discriminants: the variant's position
+                names_ = [vv.get('name') for vv in self.facts.adts[v.kind[0]]['variants']]
+                fr.storev(dst, Int(names_.index(v.kind[1])) if v.kind[1] in names_ and len(names_) > 1 else TOP)
             else:
                 fr.storev(dst, TOP)
         else:
             fr.storev(dst, TOP)
 
     # ------------------------------------------------------------ calls
+    def eval_promoted(self, c):
+        """Value of a promoted constant that rustc could not evaluate in the generic context (e.g. `&Enum::Variant`
+        inside a trait's provided method): interpret the promoted body itself."""
+        key = (c['def'], c['promoted'])
+        cache = self.__dict__.setdefault('_prom_cache', {})
+        if key in cache:
+            return cache[key]
+        val = None
+        try:
+            body = self.facts.promoted(c['def'], c['promoted'])
+            frame = Frame(self, body, [])
+            bb, steps = 0, 0
+            while steps < 64:
+                steps += 1
+                blk = body.blocks[bb]
+                for st in blk['stmts']:
+                    if st['k'] == 'assign':
+                        self._assign(frame, st)
+                t_ = blk['term']
+                if t_['k'] == 'goto':
+                    bb = t_['target']
+                    continue
+                if t_['k'] == 'return':
+                    val = frame.store.get(0)
+                    for _ in range(4):
+                        if isinstance(val, Ref):
+                            val = frame._project(frame.store.get(val.root, TOP), val.proj)
+                    if val is TOP:
+                        val = None
+                break
+        except (NotDerivable, Budget, KeyError, IndexError, TypeError):
+            val = None
+        cache[key] = val
+        return val
+
     def _subst_callee(self, c):
         import re
         if not self.ty_subst or c is None:
